@@ -93,12 +93,14 @@ def dec_thr(t):
 
 
 def gen(r):
-    thr = r.choice([0.5, 0.34, 0.25, 0.2, 0.1, 0.1, 0.05, 0.03, 0.01, 0.004, 0.002])
+    thr = r.choice([0.5, 0.34, 0.25, 0.2, 0.1, 0.1, 0.05, 0.03, 0.01, 0.004, 0.002,
+                    # reciprocals with a fractional part of one half and more (1.67, 1.54, 2.78, 5.56, 10.53, 1.18, 3.7)
+                    0.6, 0.65, 0.36, 0.18, 0.095, 0.85, 0.27])
     if r.random() < 0.15:
         # exact rationals whose reciprocal is an integer that binary floating point misses (1/93 -> 92.99999...)
         thr = r.choice([['frac', 1, q] for q in (93, 99, 105, 117, 49, 98, 103, 107, 3, 7, 10)] + [['dec', '0.01'], ['dec', '0.1']])
     w = int(1 / dec_thr(thr))
-    style = r.choice(['uniform', 'zipf', 'distinct', 'adversarial', 'adversarial', 'mixed', 'quiet-window'])
+    style = r.choice(['uniform', 'zipf', 'distinct', 'adversarial', 'adversarial', 'mixed', 'quiet-window', 'geometric'])
     n = r.choice([0, 1, w - 1, w, w + 1, 3 * w, 10 * w + 3, 40 * w, r.randint(0, 800)])
     n = min(n, 4000)
     if style == 'uniform':
@@ -112,6 +114,16 @@ def gen(r):
         stream = adversarial(w, r.choice([2, 3, 5, 8, 10, 12]))[:4000]
         if r.random() < 0.4:
             stream = stream + [r.randrange(5) for _ in range(r.randint(0, 3 * w))]
+    elif style == 'geometric':
+        # A x 2^m, B x 2^(m-1), ... then singletons: each key arrives just often enough to outlive the keys after it
+        m = r.randint(2, 7)
+        stream = []
+        for i in range(m, -1, -1):
+            stream += ['g%d' % i] * (r.choice([2, 2, 3]) ** i if i < 6 else 2 ** i)
+        stream += ['tail%d' % i for i in range(r.randint(0, 3 * w + 2))]
+        if r.random() < 0.3:
+            r.shuffle(stream)
+        stream = stream[:3000]
     elif style == 'quiet-window':
         # windows that fill the table with keys which only just survive, then one or two whole windows in which
         # nothing but an already tracked key arrives (every addition a hit), then a burst of new keys
